@@ -27,6 +27,7 @@ META = {
     "assumptions": [
         "harness translation of chalk_ir answers to first-order terms; user-level exists variables re-ordered by the harness",
         "runs with different consumer budgets use fresh solvers on the same program/goal and are compared as prefixes (the engine is deterministic)",
+        "on a used solver the order of the answers may differ from the fresh enumeration (tables already filled); drained enumerations are compared as sets, and a table that floundered yields only Floundered items afterwards",
         "event reconstruction: the yielded items of the longest run, in order, are the root table's answer events (duplicates and invalid answers are invisible at this interface)",
     ],
     "bins": ["solve"],
@@ -145,7 +146,8 @@ def events_of(longest, ids):
             rest = items[j:]
             # a Floundered item that is followed only by Floundered items up to the consumer's cut is the
             # floundered root table (it repeats for ever); otherwise it is an ambiguous identity answer
-            if not longest.complete and all(x == "Floundered" for x in rest):
+            # (a floundered table flags every item `true`, so a `false` flag means an answer)
+            if not longest.complete and all(x == "Floundered" for x in rest) and all(longest.flags[j:]):
                 evs.append(3)
                 break
             evs.append(2)
@@ -257,8 +259,11 @@ def used_solver_problems(steps):
             if sx.to_sexp(it) in seen:
                 probs.append("enumeration %d: item yielded twice: %s" % (j, sx.to_sexp(it)))
             seen.add(sx.to_sexp(it))
-        # the table is persistent: a later enumeration repeats the earlier one as a prefix
+        # the table is persistent: a later enumeration repeats the earlier one as a prefix (unless the table
+        # floundered in between: mark_floundered drops the stored answers and every later item is Floundered)
         for (k2, r2) in steps[j + 1:]:
+            if "Floundered" in r.items or "Floundered" in r2.items:
+                continue
             m = min(n, len(r2.items))
             if [item_id(x) for x in r.items[:m]] != [item_id(x) for x in r2.items[:m]]:
                 probs.append("enumeration %d and a later one on the same solver disagree on their common prefix" % j)
@@ -331,9 +336,10 @@ def history_stage(ctx, rng, work, fresh, defs, exprs, emeta, mexprs, mmeta, hist
         # against the fresh solver
         flongest, prefix = fresh[(w, gi)]
         last_k, last = enum[-1]
-        m = min(len(last.items), len(flongest.items))
-        if [item_id(x) for x in last.items[:m]] != [item_id(x) for x in flongest.items[:m]] or \
-                (last.complete and flongest.complete and len(last.items) != len(flongest.items)):
+        # the ORDER of the answers may depend on what the tables already hold; the SET of a drained
+        # enumeration may not
+        both_drained = last.complete and flongest.complete and "Floundered" not in last.items and "Floundered" not in flongest.items
+        if both_drained and sorted(item_id(x) for x in last.items) != sorted(item_id(x) for x in flongest.items):
             f = ctx.match_known(None, "F7-used-solver-coinductive") if any(t.coinductive for t in p.traits) else None
             if f:
                 ctx.known_finding(f, gt)
@@ -530,6 +536,24 @@ def run(ctx):
 
 def replay(ctx, obj):
     core.build_harness(bins=["solve"])
+    if obj.get("history"):
+        gts = [h[0] for h in obj["history"]]
+        steps = [sx.parse_sexp(h[1]) for h in obj["history"]]
+        res = logic.solve_cases([pg.case(obj["program"], gts, pg.SLG, ("HistoryMulti", steps), [("Cpu", 10)])], timeout=300)
+        r = res[0]
+        if not r["ok"]:
+            print(r["error"])
+            return 0
+        enum = []
+        for t, st_, gr in zip(gts, steps, r["goals"]):
+            print(t, sx.to_sexp(st_), ":", gr[1] if gr[0] == "error" else sx.to_sexp(gr[1]))
+            if gr[0] != "error" and t == obj["goal"] and st_ != "S":
+                rn = Run(gr[1])
+                if rn.ok:
+                    enum.append((st_[1], rn))
+        probs = used_solver_problems(enum)
+        print("problems on the used solver:", probs)
+        return 1 if probs else 0
     budgets = BUDGETS
     cases = [pg.case(obj["program"], [obj["goal"]], pg.SLG, ("Multiple", k), [("Cpu", 10)]) for k in budgets]
     res = logic.solve_cases(cases, timeout=300)
